@@ -11,6 +11,9 @@ from pathlib import Path
 
 VERIF = Path(__file__).resolve().parent.parent
 FINDINGS_FILE = VERIF / "known_findings.json"
+# evidence and replay files of a run go under /verif unless VP_OUT names another directory (used when a seeded change
+# is evaluated, so that such runs never touch the evidence of the unchanged tree)
+OUT_ROOT = Path(os.environ["VP_OUT"]) if os.environ.get("VP_OUT") else VERIF
 
 
 class HarnessError(Exception):
@@ -221,7 +224,7 @@ def ddmin_ops(check: Check, program: dict, sig: str, budget: int = 150):
 
 
 def write_replay(pid: str, program, sig: str, msg: str, seed: int, tier: str) -> Path:
-    directory = VERIF / "replays" / pid
+    directory = OUT_ROOT / "replays" / pid
     directory.mkdir(parents=True, exist_ok=True)
     path = directory / f"{phash([program, sig])}.json"
     path.write_text(
